@@ -856,6 +856,14 @@ func parseTypeSystemDefinition(parser *Parser) (ast.Node, error) {
 		if keywordToken, err = lookahead(parser); err != nil {
 			return nil, err
 		}
+		// these definitions take no description: the keyword is the
+		// first token that cannot continue the document
+		if keywordToken.Kind == lexer.NAME {
+			switch keywordToken.Value {
+			case "query", "mutation", "subscription", "fragment", "schema", "extend":
+				return nil, unexpected(parser, keywordToken)
+			}
+		}
 	}
 
 	if keywordToken.Kind != lexer.NAME {
